@@ -324,6 +324,11 @@ def run_case(ctx, case, rec, d):
             from mc.runner import exc_signature
             rec.violation('fit-variants|' + exc_signature(e), {'variant': [fmt, mm]}, {'type': type(e).__name__, 'msg': str(e)[:300]})
             return
+    try:
+        # ... and one more memory-mapped fitter on the cube package, never used, is built after them
+        fc.make_fitter(md2, bands, 'power', (0.0, 8.0), distance_range_kpc=dr, theta=theta, memmap=True, remove_resolved=not case['rr'])
+    except Exception:
+        pass
     for fmt, md, mm in variants[::-1]:
         try:
             ft = built[(fmt, mm)]
